@@ -113,9 +113,14 @@ func NewJITCompilerWithConfig(hotPathThreshold int, recompileWindow time.Duratio
 func (jit *JITCompiler) CompileRoute(name string, route *ast.Route) ([]byte, error) {
 	startTime := time.Now()
 
-	// Check if we have a cached compiled unit
+	// Check if we have a cached compiled unit. Its fields are written under
+	// unitsMux by recompileRoute, so take a snapshot while holding the lock.
 	jit.unitsMux.RLock()
 	unit, exists := jit.units[name]
+	var snapshot CompilationUnit
+	if exists {
+		snapshot = *unit
+	}
 	jit.unitsMux.RUnlock()
 
 	if exists {
@@ -125,11 +130,11 @@ func (jit *JITCompiler) CompileRoute(name string, route *ast.Route) ([]byte, err
 		jit.statsMux.Unlock()
 
 		// Check if we should recompile to a higher tier
-		if jit.shouldRecompile(unit) {
+		if jit.shouldRecompile(&snapshot) {
 			return jit.recompileRoute(name, route, unit)
 		}
 
-		return unit.Bytecode, nil
+		return snapshot.Bytecode, nil
 	}
 
 	// Cache miss - compile for the first time
@@ -233,7 +238,10 @@ func (jit *JITCompiler) recompileRoute(name string, route *ast.Route, currentUni
 	startTime := time.Now()
 
 	// Determine next tier
-	nextTier := jit.getNextTier(currentUnit.Tier)
+	jit.unitsMux.RLock()
+	currentTier := currentUnit.Tier
+	jit.unitsMux.RUnlock()
+	nextTier := jit.getNextTier(currentTier)
 
 	// Compile with new tier
 	bytecode, err := jit.compileWithTier(route, nextTier)
@@ -429,13 +437,17 @@ func (jit *JITCompiler) CompileRouteWithTypes(name string, route *ast.Route, typ
 func (jit *JITCompiler) CheckAdaptiveRecompilation(name string, route *ast.Route) (bool, error) {
 	jit.unitsMux.RLock()
 	unit, exists := jit.units[name]
+	var currentTier OptimizationTier
+	if exists {
+		currentTier = unit.Tier
+	}
 	jit.unitsMux.RUnlock()
 
 	if !exists {
 		return false, nil
 	}
 
-	trigger := jit.recompileTrigger.ShouldRecompile(name, unit.Tier)
+	trigger := jit.recompileTrigger.ShouldRecompile(name, currentTier)
 	if !trigger.ShouldRecompile {
 		return false, nil
 	}
@@ -456,14 +468,12 @@ func (jit *JITCompiler) CheckAdaptiveRecompilation(name string, route *ast.Route
 
 // RecordDeoptimization records when specialized code had to deoptimize
 func (jit *JITCompiler) RecordDeoptimization(routeName string, reason string, typeMismatch map[string]string) {
-	jit.unitsMux.RLock()
-	unit, exists := jit.units[routeName]
-	jit.unitsMux.RUnlock()
-
 	var fromTier OptimizationTier
-	if exists {
+	jit.unitsMux.RLock()
+	if unit, exists := jit.units[routeName]; exists {
 		fromTier = unit.Tier
 	}
+	jit.unitsMux.RUnlock()
 
 	record := DeoptimizationRecord{
 		RouteName:    routeName,
